@@ -26,13 +26,12 @@
       because `x / 0 = 0` in a field.
     * NNDVI (every carrier, no law used — in particular the executed Float instance):
       `shuffle_reassigns`, `threshold_def`, `nndvi_drift_iff`, `reference_replaced_iff_drift`,
-      `step_counters`, `step_state_range`, `run_reference`; over ℝ: `threshold_real`
+      `step_counters`, `step_state_range`, `run_reference`; over ℝ: `threshold_real`, `threshold_zero_spread`
       (mean + z·(population standard deviation)).
 
-  Deviation of the code from the property text, kept in the model (see `threshold`):
-  when all re-assignment distances are equal the fitted std is 0, scipy's
-  `norm.ppf(1-alpha, mu, 0)` is NaN and no drift is reported (`nndvi_drift_iff` has the
-  conjunct `0 < stdPop …`); recorded in known-findings.txt.
+  The threshold is defined for every list of re-assignment distances (also when they all
+  coincide, std = 0, where it is their mean — /repo commit fe25b1e), so `nndvi_drift_iff`
+  carries no definedness side condition; `threshold_zero_spread` records that case over ℝ.
 -/
 import MenelausVerif.Model.NNSP
 import MenelausVerif.Lemmas.NNSPOrder
@@ -240,23 +239,20 @@ open MV MV.NNSP
 section Lifecycle
 variable {α : Type} [LT α] [DecidableLT α] [Add α] [Sub α] [Mul α] [Div α] [Neg α] [NatCast α] [HasSqrt α]
 
-omit [Neg α] in
-/-- the threshold is `z·std + mean` of the re-assignment distances, defined only when `std > 0` -/
-theorem threshold_def (z : α) (ds : List α) (θ : α) :
-    threshold z ds = some θ ↔ ((0 : Nat) : α) < stdPop ds ∧ θ = z * stdPop ds + mean ds := by
-  unfold threshold
-  split <;> simp_all [eq_comm]
+omit [Neg α] [LT α] [DecidableLT α] in
+/-- the threshold is `z·std + mean` of the re-assignment distances (the code's operation order),
+    for every list of distances -/
+theorem threshold_def (z : α) (ds : List α) : threshold z ds = z * stdPop ds + mean ds := rfl
 
-/-- NNDVI reports drift for a batch exactly when the batch is accepted, the threshold is
-    defined and the distance between reference and batch strictly exceeds it.
+/-- NNDVI reports drift for a batch exactly when the batch is accepted and the distance between
+    reference and batch strictly exceeds the threshold fitted to the re-assignment distances.
     (Hypothesis: the state before is `none` or `drift` — the only states NNDVI ever has,
     see `step_state_range`.) -/
 theorem nndvi_drift_iff (c : Cfg α) (s : State α) (X : List (Row α)) (adj : List (List Bool))
     (perms : List (List Nat)) (hs : s.drift ≠ .warning) :
     (step c s X adj perms).1.drift = .drift ↔
-      ∃ ref b θ, s.reference = some ref ∧ build c.k ref X adj = some b ∧
-        threshold c.z (perms.map (shuffleDist b.nnps b.v1)) = some θ ∧
-        θ < nnpsDistance b.nnps b.v1 b.v2 := by
+      ∃ ref b, s.reference = some ref ∧ build c.k ref X adj = some b ∧
+        threshold c.z (perms.map (shuffleDist b.nnps b.v1)) < nnpsDistance b.nnps b.v1 b.v2 := by
   unfold step
   have h0 : (if s.drift = .drift then reset s else s).drift = .none := by
     cases hd : s.drift <;> simp_all [reset]
@@ -272,12 +268,9 @@ theorem nndvi_drift_iff (c : Cfg α) (s : State α) (X : List (Row α)) (adj : L
     | none => simp [h0, hb]
     | some b =>
       simp only
-      cases hθ : threshold c.z (perms.map (shuffleDist b.nnps b.v1)) with
-      | none => simp [exceeds, h0, hb, hθ]
-      | some θ =>
-        by_cases hlt : θ < nnpsDistance b.nnps b.v1 b.v2
-        · simp [exceeds, hlt, hb, hθ]
-        · simp [exceeds, hlt, h0, hb, hθ]
+      by_cases hlt : threshold c.z (perms.map (shuffleDist b.nnps b.v1)) < nnpsDistance b.nnps b.v1 b.v2
+      · simp [exceeds, hlt, hb]
+      · simp [exceeds, hlt, h0, hb]
 
 /-- on drift the test batch becomes the reference, otherwise the reference is kept -/
 theorem reference_replaced_iff_drift (c : Cfg α) (s : State α) (X : List (Row α)) (adj : List (List Bool))
@@ -373,12 +366,13 @@ noncomputable local instance : HasSqrt ℝ := ⟨Real.sqrt⟩
 
 /-- over ℝ: `mean` is the arithmetic mean, `stdPop` the *population* standard deviation
     (divisor n), and the threshold is `mean + z·std` -/
-theorem threshold_real (z : ℝ) (ds : List ℝ) (θ : ℝ) :
+theorem threshold_real (z : ℝ) (ds : List ℝ) :
     (mean ds = ds.sum / ds.length) ∧
+    (0 ≤ stdPop ds) ∧
     (stdPop ds ^ 2 = (ds.map (fun d => (d - ds.sum / ds.length) ^ 2)).sum / ds.length) ∧
-    (threshold z ds = some θ ↔ 0 < stdPop ds ∧ θ = ds.sum / ds.length + z * stdPop ds) := by
+    (threshold z ds = ds.sum / ds.length + z * stdPop ds) := by
   have hm : mean ds = ds.sum / ds.length := by unfold mean; rw [sumL_eq_sum]
-  refine ⟨hm, ?_, ?_⟩
+  refine ⟨hm, Real.sqrt_nonneg _, ?_, ?_⟩
   · unfold stdPop
     simp only [hm, sumL_eq_sum]
     show Real.sqrt _ ^ 2 = _
@@ -392,15 +386,26 @@ theorem threshold_real (z : ℝ) (ds : List ℝ) (θ : ℝ) :
         obtain ⟨d, _, rfl⟩ := List.mem_map.mp hx
         exact mul_self_nonneg _
       · exact Nat.cast_nonneg _
-  · rw [threshold_def, hm, Nat.cast_zero, add_comm]
+  · rw [threshold_def, hm, add_comm]
 
-/-- non-vacuity: a sample of distances with positive spread has a defined threshold -/
-example : ∃ θ, threshold (2 : ℝ) [0, 1] = some θ := by
-  have h : (0 : ℝ) < stdPop [0, 1] := by
-    show 0 < Real.sqrt _
-    apply Real.sqrt_pos.mpr
-    simp [sumL, mean]; norm_num
-  exact ⟨_, (threshold_def _ _ _).mpr ⟨by simpa using h, rfl⟩⟩
+/-- when all re-assignment distances coincide the threshold is that common value (for every z):
+    drift is then reported iff the distance exceeds it -/
+theorem threshold_zero_spread (z c : ℝ) (n : Nat) (hn : 0 < n) : threshold z (List.replicate n c) = c := by
+  have hm : mean (List.replicate n c) = c := by
+    unfold mean; rw [sumL_eq_sum]
+    have : (n : ℝ) ≠ 0 := Nat.cast_ne_zero.mpr (by omega)
+    simp [List.sum_replicate]; field_simp
+  have hs : stdPop (List.replicate n c) = 0 := by
+    unfold stdPop
+    simp only [hm, List.map_replicate, sub_self, mul_zero, sumL_eq_sum, List.sum_replicate, smul_zero, zero_div]
+    exact Real.sqrt_zero
+  rw [threshold_def, hs, hm]; simp
+
+/-- non-vacuity: the reproducer of the former NaN case — five equal distances 0, distance 1/5 -/
+example : threshold (2 : ℝ) [0, 0, 0, 0, 0] < 1 / 5 := by
+  have := threshold_zero_spread 2 0 5 (by norm_num)
+  simp only [List.replicate] at this
+  rw [this]; norm_num
 
 end Real
 
